@@ -72,3 +72,9 @@ check('C12', 'exploration', 'model-based property testing of poll/registration h
       'every poll request and convergence at quiescence, read behaviourally. A timer mode runs the real RepeatedTimer '
       'against a failing scripted service.',
       'Task-granular reordering (an apply task is one reference assignment); convergence demanded only at quiescence.')
+check('C14', 'exploration', 'model-based property testing of start/shutdown histories on a real Deep with fault sets',
+      'Histories of start/shutdown on a real Deep (fake channel, synthetic plugins loaded by the real loader) with '
+      'pre-existing sys/threading hooks, NO_TRACE, failing pending sends, raising plugin shutdowns and a program thread '
+      'parked in traced code across the shutdown; hooks are compared by identity before/after, timer thread liveness, '
+      'plugin shutdown counts, started flag and absence of any action after shutdown are asserted after every step.',
+      'All lifecycle calls from one thread; restart after a completed shutdown is outside the statement and not generated.')
